@@ -110,10 +110,54 @@ def continue_both(rep: Reporter, cfg: Cfg, a, b, k: int, k2: Optional[int], hori
     elif canon_searcher(a) != canon_searcher(b):
         rep.v("restored-diverges", "universe", f"after interruption at {k} (then {k2}) the universes differ", **extra)
     elif sig(sa) != sig(sb):
-        rep.v("restored-diverges", "specification", f"after interruption at {k} (then {k2}) the specifications differ", **extra)
+        # Same universe, same work, but another proof tree: which of several alternative rules
+        # the tree search takes depends on the iteration order of sets, which pickling does not
+        # preserve (and which the real search randomises anyway).  Both answers must then be
+        # specifications of the common universe that pass C01/C02.
+        rep.acc.count("restored_specification_is_another_tree_of_the_same_universe")
+        validate_spec(rep, cfg, sb, seen_specs, **extra)
+        for spec, other, who in ((sa, b, "original"), (sb, a, "restored")):
+            foreign = rules_outside_universe(spec, other)
+            if foreign:
+                rep.v("restored-diverges", "specification",
+                      f"after interruption at {k} (then {k2}) the {who} specification uses a rule the other searcher does not hold: {foreign[0]}", **extra)
+                break
     if oa == "spec":
         validate_spec(rep, cfg, sa, seen_specs, **extra)
     return oa, sa
+
+
+def rules_outside_universe(spec, searcher) -> List[str]:
+    """Rules of the specification (equivalence paths link by link, reverse rules through the
+    rule they reverse) whose key the searcher's rule database does not hold."""
+    from comb_spec_searcher.strategies.rule import EquivalencePathRule, ReverseRule, VerificationRule
+
+    out: List[str] = []
+    classdb = searcher.classdb
+    try:
+        stored = set(iter(searcher.ruledb)) if hasattr(searcher.ruledb, "__iter__") else None
+    except Exception:  # noqa: BLE001
+        stored = None
+
+    def visit(rule) -> None:
+        if isinstance(rule, EquivalencePathRule):
+            for x in rule.rules:
+                visit(x)
+            return
+        while isinstance(rule, ReverseRule) or hasattr(rule, "original_rule"):
+            rule = rule.original_rule
+        try:
+            start = classdb.get_label(rule.comb_class)
+            ends = tuple(sorted(classdb.get_label(c) for c in rule.children if not (rule.possibly_empty and classdb.is_empty(c))))
+        except Exception as e:  # noqa: BLE001
+            out.append(f"{rule.comb_class!r}: {type(e).__name__}")
+            return
+        if stored is not None and not isinstance(rule, VerificationRule) and (start, ends) not in stored and ends != (start,):
+            out.append(f"{start} -> {ends} ({rule.formal_step})")
+
+    for r in spec.rules_dict.values():
+        visit(r)
+    return out
 
 
 def explore_cfg(acc: Acc, cfg: Cfg, tier: str, only_k: Optional[int] = None, only_k2: Any = "all") -> None:
